@@ -129,6 +129,30 @@ pub fn exec_batch(tables: &Tables, stmt: &Statement, lines: &[String]) -> Result
     match r { Ok(Ok(v)) => Ok(v), Ok(Err(e)) => Err(EngErr::Err(e)), Err(p) => Err(EngErr::Panic(p)) }
 }
 
+/// Batch mode with the result asked for several times from ONE engine: update-only per line, a result after the first `cut`
+/// lines, after all lines, and once more (what an executor called again over further input, or a caller polling the result, does).
+pub fn exec_batch_results(tables: &Tables, stmt: &Statement, lines: &[String], cut: usize) -> Result<Vec<RowsOut>, EngErr> {
+    let r = guard(|| -> Result<Vec<RowsOut>, String> {
+        let mut engine = ExecutionEngine::new(tables, stmt);
+        engine.execute_joined_table(Arc::new(AtomicBool::new(true))).map_err(|e| format!("{}", e))?;
+        let cfg = engine.execution_config();
+        let mut out = Vec::new();
+        let result = |engine: &mut ExecutionEngine| -> Result<RowsOut, String> {
+            let o = engine.execute(String::new(), &ExecutionConfig::aggregate_result()).map_err(|e| format!("{}", e))?;
+            Ok(o.result_row.as_ref().map(convert).unwrap_or_else(RowsOut::empty))
+        };
+        for (i, line) in lines.iter().enumerate() {
+            if i == cut { out.push(result(&mut engine)?); }
+            engine.execute(line.clone(), &cfg).map_err(|e| format!("{}", e))?;
+        }
+        if cut >= lines.len() { out.push(result(&mut engine)?); }
+        out.push(result(&mut engine)?);
+        out.push(result(&mut engine)?);
+        Ok(out)
+    });
+    match r { Ok(Ok(v)) => Ok(v), Ok(Err(e)) => Err(EngErr::Err(e)), Err(p) => Err(EngErr::Panic(p)) }
+}
+
 // ---------------------------------------------------------------------------------------------
 // executor boundary
 
